@@ -330,6 +330,22 @@ def parser_conformance(chk: core.Check, tier: str, seed: int) -> None:
             problem = "error class differs from Parser.tla"
         elif g["ok"] and g["ast"] != rec["ast"]:
             problem = "the query built differs from Parser.tla"
+        if not problem and g["ok"] and g["rfc"] == "accept":
+            # Evaluator.tla: the node lists the implementation-shaped evaluator computed on MC_Parser's documents
+            cq = jp.compile(q)
+            for k, doc in enumerate(parserconf.MC_DOCS):
+                want = g["res"][k]
+                if want == ["dc"]:
+                    continue
+                chk.evaluations += 1
+                try:
+                    got = [core.enc_loc(n.location) for n in cq.find(doc)]
+                except Exception as err:  # noqa: BLE001
+                    got = ["raised", type(err).__name__]
+                if got != want:
+                    chk.violation({"clause": "EVALUATOR find() differs from Evaluator.tla", "set": g["set"]},
+                                  {"query": q, "document": doc, "model": want, "code": got})
+                    break
         if problem:
             chk.violation({"clause": "PARSER " + problem, "set": g["set"], "model": g["kind"] or "ok", "code": rec["kind"] or "ok"},
                           {"query": q, "model": {"ok": g["ok"], "kind": g["kind"], "ast": g["ast"]},
